@@ -35,10 +35,25 @@ Print Assumptions C07_depfix_many.
 
 (* error branches: the depfixer can only raise for a newline before the separator colon of a line, for a second
    separator colon in a line, or for end of input inside a rule *)
-Theorem C07_depfix_total : forall s e, snd (emit_deps s) = Some e ->
+Theorem C07_depfix_error_kinds : forall s e, snd (emit_deps s) = Some e ->
   e = EEof \/ e = EUnexpected TNewline \/ e = EUnexpected TColon.
 Proof. intros s e. exact (emit_err_kinds DTarget (tokenize s) e). Qed.
+Print Assumptions C07_depfix_error_kinds.
+
+(* exactly when, and with which exception: emit_deps is total, and its outcome is the one of the declarative
+   line-by-line reading depfile_err - every newline-terminated line needs exactly one separator colon (none:
+   unexpected newline; a second one: unexpected colon), the unterminated rest must hold no separator colon and must
+   not end in a blank (else unexpected end of file; trailing word characters are silently ignored, as written).
+   With C07_depfix_targets/_many: it never fails on the image of the compiler's writer. *)
+Theorem C07_depfix_total : forall s, snd (emit_deps s) = depfile_err s.
+Proof. exact emit_deps_err_spec. Qed.
 Print Assumptions C07_depfix_total.
+
+Example C07_depfix_total_ex :
+  depfile_err (STR "a: b c") = Some EEof /\ depfile_err (STR "a b") = None /\
+  depfile_err (STR "a: b: c" ++ [c_nl]) = Some (EUnexpected TColon) /\ depfile_err (STR "a:b" ++ [c_nl]) = Some (EUnexpected TNewline) /\
+  depfile_err (STR "a: b" ++ [c_nl] ++ STR "c: d" ++ [c_nl]) = None.
+Proof. vm_compute. repeat split. Qed.
 
 (* ---- generic theorems about the mtime semantics of Make (Make/MakeSem.v) ---- *)
 
@@ -124,6 +139,23 @@ Theorem C07_inv : forall (content : Type) (includes : content -> file -> list fi
   Inv content includes (next_world content includes w c' f').
 Proof. exact inv_preserved. Qed.
 Print Assumptions C07_inv.
+
+(* the hypotheses of C07_rebuild / C07_inv are satisfiable and the conclusion is not trivial there: one object (10)
+   compiled from source 2 including header 1; the edit modifies header 1; the object is recompiled *)
+Example C07_inv_ex :
+  Inv unit ex_includes ex_world /\ edit_ok unit ex_includes ex_world tt ex_fs' [1] /\
+  b_log (after_build unit ex_world tt ex_fs') = [10].
+Proof. exact (conj ex_Inv (conj ex_edit_ok ex_rebuild)). Qed.
+
+(* clean followed by build recompiles every object (object files removed; depfiles removed or not) *)
+Theorem C07_clean_rebuild : forall objs f clk,
+  objs_ok objs ->
+  (forall o, In o objs -> f (o_src o) <> None \/ In (o_src o) (o_listed o)) ->
+  (forall o, In o objs -> f (o_file o) = None) ->
+  b_fail (build (rules_of true objs) f clk) = None /\
+  b_log (build (rules_of true objs) f clk) = map o_file objs.
+Proof. exact clean_rebuild. Qed.
+Print Assumptions C07_clean_rebuild.
 
 (* names outside the guard really go wrong: the depfixer copies percent and equals unescaped, and Make does not
    read the resulting line as an explicit rule for that name (see findings C07-depfix-percent / -equals) *)
